@@ -42,8 +42,10 @@
   (hInit = .../traverse/init/..., hEnter = .../traverse/enter/invariant-preserved + returned-value-as-specified + stable/...,
   hLeave likewise, hSilent = .../invariant-preserved-where-no-...-callback-is-given; the hypotheses of hEnter / hLeave are exactly
   the facts `apply` assumes about the arbitrary ENT / LEFT / node / incoming values) is by inspection of that file: both are
-  written from this text.  What a client additionally owes is the frame of its callbacks (`Rule(modifies=...)`: state the callbacks
-  may change; everything else they may only read) - the rule havocs exactly that state, it does not yet check the callbacks against it.
+  written from this text.  The client state σ of this model is the state named by `Rule(modifies=...)`: the rule havocs exactly that
+  state before a step, and each step carries the frame obligation `.../callback-changes-only-the-state-the-rule-declares` (every
+  other list / dict / array / object reachable from the carrier's frame, and every other local, is syntactically the same after
+  the real callback and its ghost code; extension values of pyvc/ext_*.py that are not stock containers are not followed).
 -/
 
 namespace TraverseRule
